@@ -1,4 +1,5 @@
 import json
+import os
 import tarfile
 import shutil
 import numpy as np
@@ -142,8 +143,16 @@ class DataDir(object):
         return self._delete_files(filenames=filenames)
 
     def _check_writeprotected(self, filename, accessmode):
-        if accessmode != 'r' and filename in self._protectedpaths:
-            raise OSError(f'Cannot modify protected file "{filename}"')
+        if accessmode != 'r':
+            # compare normalized paths, so that other spellings of a protected
+            # path ('./x', 'x/', Path('x'), 'y/../x') and paths within a
+            # protected directory are recognized as well
+            base = os.path.abspath(self._path)
+            path = os.path.abspath(os.path.join(base, filename))
+            for protectedpath in self._protectedpaths:
+                ppath = os.path.abspath(os.path.join(base, protectedpath))
+                if path == ppath or path.startswith(ppath + os.sep):
+                    raise OSError(f'Cannot modify protected file "{filename}"')
 
     # FIXME overwrite parameter?
     @contextmanager
